@@ -230,7 +230,9 @@ func (t *tr) builtin(name string, ce *ast.CallExpr) ([]*cont, bool) {
 			if h == "" {
 				h = "ch"
 			}
-			return t.ret(avChan{t.newNamedChan(t.fname()+"."+h, cap)}), true
+			id := t.newNamedChan(t.fname()+"."+h, cap)
+			t.p.chans[id].env = false
+			return t.ret(avChan{id}), true
 		case *ast.MapType:
 			return t.ret(t.newMap(t.hint)), true
 		case *ast.ArrayType:
@@ -250,7 +252,7 @@ func (t *tr) builtin(name string, ce *ast.CallExpr) ([]*cont, bool) {
 		}
 		return t.ret(avUnknown{}), true
 	case "delete":
-		if m, ok := t.eval(ce.Args[0]).(avMap); ok && !t.dataMaps[m.id] {
+		if m, ok := t.eval(ce.Args[0]).(avMap); ok {
 			delete(t.cur.ps.maps, m.id)
 		}
 		return t.ret(), true
